@@ -255,16 +255,6 @@ func oneRun(o sim.Opts, useModel bool) (rr runResult) {
 		}
 		for i, o := range sout {
 			if o != "ok" {
-				// Spec.campaign puts the vote request into the soup at once; the implementation sends it with a later Ready (sync:
-				// after the new term is durable), so a candidate that crashes before that leaves a request in the
-				// Spec's soup that no node ever saw. If that stale request is the ONLY guard that fails (the log the node
-				// leads with does not cover it), the run leaves the Spec's executions here: the precise form of the guard
-				// (over messages really sent) is the C02 monitor, which did not fire. Counted, not reported.
-				if strings.Contains(o, "DISABLED becomeLeader") && strings.Contains(o, "[candidate=true quorum=true ownVoteDurable=true reqVotesCovered=false votesInSoup=true]") {
-					rr.Stats["spec_left_at_unsent_vote_request"]++
-					rr.SpecActs = i
-					break
-				}
 				sf := &specFail{Line: i, Action: c.Spec.Lines[i], Output: o}
 				for k := max(0, i-12); k < i; k++ {
 					sf.Context = append(sf.Context, c.Spec.Lines[k])
